@@ -1,18 +1,41 @@
 """C14 - object variables take exactly one allowed value; equality means same value."""
+import os
+
 import netcheck
+import plancheck
+import vlib
 
 PROP = 'C14'
+
+
+def planner_variables(ev, rd, tier, seed):
+    """object variables created by the planner (solver::new_enum: no built-in exactly-one, the choice is an enum flaw):
+    the object cases of ObjGen (class tables, equalities / disequalities with instances, pinned variables, fields through
+    chains, downcasts) solved by the real planner; the variable must take exactly one value, one that fits"""
+    import check_c17
+    problems, _ = check_c17.make(os.path.join(rd, 'obj'), tier, seed, ev)
+    os.makedirs(os.path.join(rd, 'obj'), exist_ok=True)
+    vlib.build_repo('dbg_exec')
+    drv = vlib.build_driver('plan_driver', 'dbg_exec', libs=plancheck.LIBS)
+    res = plancheck.run_problems(drv, [p for p in problems if p[0].startswith(('ob', 'oo_'))], os.path.join(rd, 'obj', 'dbg_exec'), 20 if tier == 'quick' else 90)
+    ev.cov['planner_object_programs'] = len(res)
+    return plancheck.validate_results(ev, PROP, res, 'obj')
 
 
 def run(tier, seed):
     return netcheck.run_net(PROP, tier, seed,
         profiles=[('ov', 120, 1200, 30)],
-        rule='seeded histories on ov_theory: 2-4 object variables with domains of 1-3 values out of a pool of 4 (singleton, '
-             'nested, overlapping, disjoint), equality literals between any two of them (both orders, repeated), clauses '
+        rule='(1) seeded histories on ov_theory: 2-4 object variables with domains of 1-3 values out of a pool of 4 (singleton, '
+             'nested, overlapping, disjoint; with and without the built-in exactly-one; variables derived from another one that '
+             'share its literals), equality literals between any two of them (both orders, repeated), clauses '
              'and assume/pop/next histories over the value literals; in every model exactly one value literal is true, the '
              'reported domain equals the values whose literal is not false, the equality literal is true exactly in the '
-             'models where both variables take the same value; distinct_nontrivial = distinct executions with an object variable',
-        assumptions=['at most 11 propositional variables per execution (model enumeration)'])
+             'models where both variables take the same value; (2) the object variables of the planner (enum flaws instead of the '
+             'built-in exactly-one): the object programs of ObjGen solved by the real planner, every declared variable ends with '
+             'exactly one value, one that the reference semantics allows, and the program is solvable iff some instance fits; '
+             'distinct_nontrivial = distinct executions with an object variable',
+        assumptions=['at most 11 propositional variables per execution (model enumeration)'],
+        post=planner_variables)
 
 
 def replay(path):
